@@ -35,6 +35,11 @@ pub fn check(tier: Tier) -> Check {
     }
     // a Maximum Packet Size in force: some requests (among them a long DISCONNECT) are refused
     parts.push(Part::new("C13/causes", json!({"depth": tier.pick(4, 5), "m": 14}), tier.pick(0, 1), tier.pick(40, 600)));
+    // the transport's errors carry other io::ErrorKinds (WouldBlock, Interrupted, UnexpectedEof), and a
+    // read error may be transient: SocketClosed all the same
+    for k in [1u64, 2, 3] {
+        parts.push(Part::new("C13/causes", json!({"depth": tier.pick(3, 4), "errkind": k}), 0, tier.pick(40, 600)));
+    }
     // persistent back-pressure on the write half: causes arriving while a packet is half written
     parts.push(Part::new("C13/causes", json!({"depth": tier.pick(4, 5), "wb": true}), 1, tier.pick(40, 600)));
     Check {
@@ -328,6 +333,12 @@ pub fn scenario(name: &str, params: &Value) -> Scenario {
         let mut sys = Sys::new("C13", &name, chz);
         sys.params = params.clone();
         sys.m.check_client_acks = true;
+        if let Some(k) = params["errkind"].as_u64() {
+            let kind = super::c04::ERR_KINDS[k as usize % super::c04::ERR_KINDS.len()];
+            sys.w.set_err_kinds(kind, kind);
+            sys.events.push(format!("io::ErrorKind::{:?}", kind));
+        }
+        let errkind = params["errkind"].as_u64().is_some();
         let mps = params["m"].as_u64();
         sys.bring_up_fl(
             mps.map(|m| vec![Prop::u32(P_MAXIMUM_PACKET_SIZE, m as u32)]).unwrap_or_default(),
@@ -384,6 +395,9 @@ pub fn scenario(name: &str, params: &Value) -> Scenario {
                 }));
                 e.push(Ev::Eof);
                 e.push(Ev::ReadErr);
+                if errkind {
+                    e.push(Ev::ReadErrOnce);
+                }
                 // an inbound message the client has to answer (a pending write error shows here)
                 e.push(Ev::Deliver(inbound(1, false, 60, &[], "plain")));
                 // end-of-stream in the middle of a packet
@@ -405,7 +419,7 @@ pub fn scenario(name: &str, params: &Value) -> Scenario {
                 // nothing can arrive after the transport has ended (the context may be held and
                 // not have noticed yet)
                 if s.m.eof || s.m.read_err {
-                    e.retain(|x| !matches!(x, Ev::Deliver(_) | Ev::PartialThenEof(..) | Ev::Eof | Ev::ReadErr));
+                    e.retain(|x| !matches!(x, Ev::Deliver(_) | Ev::PartialThenEof(..) | Ev::Eof | Ev::ReadErr | Ev::ReadErrOnce));
                 }
                 e.push(Ev::Deliver(SPacket::Raw(vec![0x40, 0x02, 0x00, 0x00])));
                 e.push(Ev::Deliver(SPacket::Raw(vec![0x00, 0x00])));
